@@ -78,6 +78,14 @@ def check_model(F, res, rule="M", with_fuel=True):
     for leaf, want in sorted(EXPECT.items()):
         fn = F.fn(P + leaf)
         got = sig(fn)
+        # a private helper of the parser that is neither a modelled primitive nor a mover nor a grammar function (`end_of_input()`)
+        # is part of the leaf that calls it: its accesses count as the leaf's
+        leaves = {P + x for x in EXPECT} | set(movers(F))
+        for _b, t_ in fn.calls():
+            c_ = callee(t_) or ""
+            if c_.startswith(P) and c_ in F.fns and F.fns[c_].blocks and c_ not in leaves and "{closure" not in c_ and \
+                    not any(callee(t2) in leaves for _b2, t2 in F.fns[c_].calls()):
+                got = sorted(got + sig(F.fns[c_]))
         if leaf == "bump" and not bump_is_mover:
             continue        # bump delegates to another mover: checked as a wrapper below
         # compared as sets: reading a field once into a local or twice in place is the same access pattern
